@@ -469,13 +469,16 @@ def plant_all(decls, ns, rng):
                         out.append(('undefined-var-declared-in-neighbour', 'P0015', mut(i, (k, d[1], vs, body[:j] + [('a', s[1], s[2] + [foreign[0]])] + body[j + 1:]))))
             # the name of a function declared elsewhere in the unit used as a variable (the name of a function is a variable
             # inside that function only)
+            # ... and likewise the name of another function block or program (one fault per kind of the other declaration)
+            seen_kinds = set()
             for fd in decls:
-                if fd[0] == 'U' and fd[1] != d[1] and fd[1] not in own:
+                if fd[0] in 'UFP' and fd[0] not in seen_kinds and fd[1] != d[1] and fd[1] not in own:
                     js = [j for j, s in enumerate(body) if s[0] == 'a']
                     if js:
+                        seen_kinds.add(fd[0])
                         j = js[0]; s = body[j]
-                        out.append(('undefined-var-named-like-function', 'P0015', mut(i, (k, d[1], vs, body[:j] + [('a', s[1], s[2] + [fd[1]])] + body[j + 1:]))))
-                    break
+                        kind_name = 'undefined-var-named-like-function' if fd[0] == 'U' else 'undefined-var-named-like-pou'
+                        out.append((kind_name, 'P0015', mut(i, (k, d[1], vs, body[:j] + [('a', s[1], list(s[2]) + [fd[1]]) + tuple(s[3:])] + body[j + 1:]))))
             # a global variable of a configuration used without a VAR_EXTERNAL declaration
             for cd in decls:
                 if cd[0] == 'C':
